@@ -32,6 +32,30 @@ CHECKS = {
         "with the default loader's documented ones (folding of quoted strings, dash + line end + following white "
         "space removed, naive -> UTC). Same bounds as C01.",
    ref='5 (C02)', technique='symbolic execution (symx) of encoder + default loader on a symbolic leaf; z3; bounded'),
+ 'C03': dict(
+   text="Bounded symbolic execution of the real lexer, parser and decoders on spelling templates with symbolic parts, "
+        "the expected tree computed by the harness from the abstract value (never by the encoder): based integers "
+        "(PVL radix 2/8/16 with the sign before the radix; ODL/PDS3 radix 2-16 with the sign after the first '#'; the "
+        "default loader both positions) with 1-3 (quick) / 1-5 symbolic digits of the radix incl. both letter cases, "
+        "value = positional sum in linear integer arithmetic; decimal integers and reals of 9-12 shapes with symbolic "
+        "sign/digits (reals compared by their text); quoted strings with either quote and 0-2/0-3 symbolic characters "
+        "(ODL-family folding in the oracle); unquoted identifier strings; units after int / real / sequence with "
+        "symbolic unit characters and optional space; each in up to 9 contexts (plain, ';' delimited, no spaces, "
+        "between comments, inside sequences/sets/nested sequences, inside a group) so the look-ahead rules run in "
+        "context; block statements with EVERY letter of both keywords in either case (2^k spellings per path set), "
+        "optional ';', optional block name on the end statement, nesting. Five loader configurations. Outside: longer "
+        "digit strings, several non-trivial values per label, magnitude of reals (text only).",
+   ref='5 (C03)', technique='symbolic execution (symx) of lexer+parser+decoder on spelling templates with symbolic parts; spec-side expected values in LIA; z3'),
+ 'C04': dict(
+   text="Bounded symbolic execution of the real loaders on three token lists (27/24/26 tokens: all simple-value kinds, "
+        "sequence, set, units, blocks with begin/end names, based/signed/temporal/real values) whose inter-token gaps "
+        "in a sliding window are SYMBOLIC separators: runs of 0 (only where the grammar makes white space optional), "
+        "1 or 2 characters each any of the six white-space characters, a comment /* c */ with a symbolic inner "
+        "character with or without symbolic white space around it, and for the ISIS and default grammars white space "
+        "+ '#' + symbolic character + newline. Assertion: the load succeeds and equals the load of the single-blank "
+        "layout. Window of 1-3 gaps (quick) / 2-4 (thorough) at every position. One known finding (D37) listed and "
+        "its class assumed away. Outside: separators longer than 2, nested comment-like text, corpus files.",
+   ref='5 (C04)', technique='symbolic execution (symx) of the loaders with symbolic inter-token separators vs the single-blank layout; z3'),
  'C05': dict(
    text="Bounded symbolic execution of the real parsers (PVL, ODL, PDS3 configurations and the default loader) driven "
         "through their public lexer_fn parameter by a SYMBOLIC TOKEN STREAM: a generator following the documented "
